@@ -442,7 +442,7 @@ PROPS["C09"] = {
             "Request/Response/URI/Cookie and Args.Reset. Concurrency (probec): 8x12 (quick) / 12 runs of 16x60 (thorough) connections in parallel. "
             "Ownership (own): on one real engine 1-4 scripted connections of 1-4 requests (GET, small/large Content-Length, chunked, broken chunked, "
             "100-continue, multipart, malformed, truncated) x body use (none/partial/full) x ending (keep-alive, Connection: close, hijack with and "
-            "without KeepHijackedConns / user Close, Exile, unrecovered panic, write failure, IdleTimeout 0, skipRest error) with GOMAXPROCS(1) and the "
+            "without KeepHijackedConns / the hijack handler closing 0, 1 or 3 times, Exile, unrecovered panic, write failure, IdleTimeout 0, skipRest error) with GOMAXPROCS(1) and the "
             "GC off, identities of context / body stream / hijack conn reported by the handlers, then k=2-4 streamed uploads in flight together "
             "(barrier) that must each read their own body, then ctxPool, bodyStreamPool and hijackConnPool are drained completely; the Lean state "
             "machine is replayed on the reported Get choices and must end with the same pool contents.",
@@ -461,14 +461,17 @@ PROPS["C09"] = {
                   "machine over its acquire/release sites (which are regenerated from the source with their guards: release_sites_match_gen); for "
                   "every event sequence of any length and any interleaving of connections: no_double_put, no_use_after_put, distinct_owners, "
                   "every_acquired_released_or_owned (with the list of deliberate non-releases: exiled context, body stream on write failure / "
-                  "unrecovered panic, kept hijack conn).",
+                  "unrecovered panic, hijack conn still held by the user when Serve returns) - at full strength without KeepHijackedConns, "
+                  "with the hypothesis NoStale otherwise.",
     "level_note": "Trusted: Lean kernel; the go/ast translator gen/c09.go (its output is additionally compared with the real objects on every state-level "
                   "case); harness/driver. Abstractions: slices are lists (nil vs empty and retained capacity are not modelled - stale capacity is "
                   "covered by the differential runs only); interface/func/map/chan values are opaque tokens (0 = nil); closing of channels/streams and "
                   "traceInfo.Reset are effects outside the state. sync.Pool is modelled as 'Get returns some Put object or a new one'; goroutine "
                   "migration is sampled (probec), to be run under -race manually. The ownership state machine covers RequestContext, bodyStream and "
-                  "hijackConn; body byte buffers, eventStack, multipart form and traceInfo are only in the generated site list. Known findings: "
-                  "exiled-survives-reset, hijackconn-double-close.",
+                  "hijackConn; body byte buffers, eventStack, multipart form and traceInfo are only in the generated site list. The user's Close() "
+                  "calls on a hijack conn are events of the state machine (any number, hijack_close_idempotent; repaired in 4f1f5ed); the "
+                  "ownership theorems exclude exactly one call (NoStale): a holder that already released its conn closing again after the "
+                  "object was re-acquired by another connection (stale_close_fails_at). Known finding: exiled-survives-reset.",
     "assumptions": ["handlers do not call the configuration setters SetConn/SetBinder/SetValidator/SetClientIPFunc/SetFormValueFunc/SetTraceInfo/"
                     "SetEnableTrace/Request.SetIsTLS/SetMaxKeepBodySize (these survive recycling by design) and do not lower the chain index (SetIndex)",
                     "RequestHeader.GetBufValue (accessor of the scratch buffer) is not an observation",
